@@ -90,6 +90,22 @@ PLANS = {
                 [ser(12), free(8), dict(flavor="asan", lane="ser", secs=8, shards=8, crash_is_violation=True), dict(flavor="asan", lane="free", secs=6, shards=4, crash_is_violation=True), ser(5, flavor="checked", shards=8)],
                 [ser(150), free(100), dict(flavor="asan", lane="ser", secs=100, crash_is_violation=True), dict(flavor="asan", lane="free", secs=80, crash_is_violation=True), ser(60, flavor="checked")], 2000, 20000,
                 ["assumes (as the property does) that setters initialise the slot with ptr::write and that handles do not outlive their channel", "a leak (payload never destroyed at teardown) is not reported: the property demands 'at most once' there"]),
+    "C08": plan("workload `random`: one evaluation = one sequential script (5-200 steps over reserve / fill+send-reserved (oldest, newest) / cancel (newest, oldest) / plain send / poll / release / length) on one of "
+                "the 5 kinds that implement reservations, BUFFER_SIZE in {2..64}, sequence origin 0 / in [2^32-3N, 2^32+N] / anywhere, every answer predicted by the reference model of seq.rs, then all "
+                "open reservations resolved legally and the emptied channel must accept exactly BUFFER_SIZE events; workload `exhaustive`: EVERY legal script up to the depth bound (quick 6 / thorough 8 for N=2, "
+                "4 / 6 for N=4) x 3 origins (0, 2^32-3, one of the window) x both ways of resolving what is left open; workload `concurrent`: a reservation script on one thread against a polling "
+                "consumer (SER/FREE), delivered = sent exactly once with the written content, cancelled never delivered, capacity probe; distinct = distinct transcript",
+                [dict(flavor="fast", lane="free", secs=6), dict(flavor="fast", lane="free", secs=12, args=["--set", "workload=exhaustive"]), dict(flavor="checked", lane="free", secs=6, shards=8),
+                 dict(flavor="checked", lane="free", secs=12, shards=8, args=["--set", "workload=exhaustive"]), dict(flavor="fast", lane="ser", secs=6, args=["--set", "workload=concurrent"]), dict(flavor="fast", lane="free", secs=5, shards=8, args=["--set", "workload=concurrent"])],
+                [dict(flavor="fast", lane="free", secs=100), dict(flavor="fast", lane="free", secs=240, args=["--set", "workload=exhaustive"]), dict(flavor="checked", lane="free", secs=80),
+                 dict(flavor="checked", lane="free", secs=240, args=["--set", "workload=exhaustive"]), dict(flavor="fast", lane="ser", secs=100, args=["--set", "workload=concurrent"]), dict(flavor="fast", lane="free", secs=80, args=["--set", "workload=concurrent"])],
+                5000, 50000, ["payload types without destructor (the property's own restriction)", "the exhaustive sub-space is complete only when the evidence shows no 'exhaustive_enumeration_cut_short' counter"]),
+    "C15": plan("one evaluation = one single-threaded script (3-120, thorough 3-300 steps) run twice -- on a fresh object and on one whose sequence counters start at k -- and the two transcripts (every result, "
+                "delivered value, reported length, panic) compared; targets: 9 channel kinds built on the rings (send, send_with, send_with_async, reserve/send-reserved/cancel, poll, release, length, teardown "
+                "with leftovers), the AtomicMove and FullSyncMove rings, the pool allocator over both free lists, the stream-id FIFO of 10 kinds; k sweeps [2^32-3N, 2^32+2N] run after run, plus random k; "
+                "fast and checked (overflow checks) builds; distinct = distinct (transcript, k)",
+                [dict(flavor="fast", lane="free", secs=8), dict(flavor="checked", lane="free", secs=8)], [dict(flavor="fast", lane="free", secs=150), dict(flavor="checked", lane="free", secs=150)], 5000, 50000,
+                ["'transported 2^32 events before' is restated as a constructor-time sequence origin (feature `verif`): the counters are the only state that remembers how many events flowed"]),
 }
 
 LEVEL_NOTE = ("trusted base: the harness (conductor/chaos scheduler, recorder, checkers), the placement of the hook sites, x86-64/TSO for the free-running lane, "
@@ -138,4 +154,10 @@ META = {
     "C05": meta("conductor+chaos+asan", "runtime monitoring: instrumented payload type (per-event drop counter, canary, live-handle table updated before the real release) + AddressSanitizer on the same histories, teardown with buffered events included",
                 "Randomised exploration of send/receive/clone/drop/teardown histories with an instrumented payload, run both natively and under AddressSanitizer.",
                 "DESIGN.md section 2, C05"),
+    "C08": meta("seqmodel+conductor+chaos", "runtime monitoring: reference-model monitor over sequential reservation histories (exhaustive for small buffers, random for large, replayed from sequence origins around the 32-bit wrap) + concurrent delivery oracle",
+                "Exhaustive enumeration of short legal reservation scripts on BUFFER_SIZE 2/4 plus randomised long scripts, each compared step by step with an exact sequential model.",
+                "DESIGN.md section 2, C08"),
+    "C15": meta("seqmodel", "runtime monitoring: differential replay of one script from two sequence origins (0 vs k around the 32-bit wrap) on the real objects, in builds with and without overflow checks",
+                "Randomised differential testing of the real code against itself: fresh object vs object whose counters have advanced by k.",
+                "DESIGN.md section 2, C15"),
 }
